@@ -135,7 +135,7 @@ impl Engine for FileE2e {
             steps.push(Step::Emit(i));
             match ch.weighted(&[10, 3, 3]) {
                 0 => {}
-                1 => steps.push(Step::Sleep(*ch.pick(&[1u64, 30, 700, 20_000]))),
+                1 => steps.push(Step::Sleep(*ch.pick(&[1u64, 30, 700, 20_000, 20_000, 95_000]))),
                 _ => steps.push(Step::Flush(*ch.pick(&[0u64, 5, 400, 60_000, 7_200_000]))),
             }
         }
